@@ -1,6 +1,6 @@
 """C12 — a finished step's log holds everything the step printed."""
 import base64, hashlib, json, os, subprocess
-import common, x_shared
+import common, x_shared, x_c12_retention
 
 TIE = {"Log": ["h_log_setup", "h_log_setupLog", "h_log_setupStdout", "h_log_setupStderr", "h_log_setupScript", "h_log_setupExec",
                "h_log_teardown", "h_log_Execute", "h_log_OpenOrCreateFile", "h_log_openFile", "h_log_cmdSetStdout", "h_log_cmdSetStderr",
@@ -102,6 +102,10 @@ def run(chk, replay):
         # a shared-file case (several writers on one `stdout:` / `stderr:` file): x_shared.py
         chk.stats = {}; chk.rule = "replay of one shared-file case"
         x_shared.stream(chk, binp, json.load(open(replay))["case"]); return
+    if replay and "retention" in json.load(open(replay))["case"]:
+        # a run · retry · age · run sequence through the real agent and history store: x_c12_retention.py
+        chk.stats = {}; chk.rule = "replay of one retry-then-retention case"
+        x_c12_retention.stream(chk, binp, json.load(open(replay))["case"]); return
     if replay:
         cases = [json.load(open(replay))["case"]]
     else:
@@ -299,3 +303,5 @@ def run(chk, replay):
     if not replay:
         # several writers on ONE `stdout:` / `stderr:` file (concurrent steps, two runs): own generator + monitor, x_shared.py
         x_shared.stream(chk, binp)
+        # the log NAMED by a retained history record over a sequence of runs (run, retry, retention clean-up): x_c12_retention.py
+        x_c12_retention.stream(chk, binp)
